@@ -24,6 +24,7 @@ import (
 	"strings"
 	"testing"
 
+	googleproto "google.golang.org/protobuf/proto"
 	"pgregory.net/rapid"
 
 	v3 "github.com/projectcalico/api/pkg/apis/projectcalico/v3"
@@ -127,10 +128,26 @@ type c09mWorld struct {
 	ifaces    []string
 	ids       []*proto.WorkloadEndpointID
 
+	// The current IP version's stack (ipv, rs, epMgr, polMgr are switched by use()).
 	rs     *nfsim.Ruleset
 	epMgr  *endpointManager
 	polMgr *policyManager
+	stacks []c09mStack
 	active map[string]bool // policy / profile keys currently announced as active
+}
+
+// c09mStack: the managers and filter table of one IP version.  As in the dataplane driver, the
+// IPv4 and the IPv6 managers receive the very same message objects.
+type c09mStack struct {
+	ipv    int
+	rs     *nfsim.Ruleset
+	epMgr  *endpointManager
+	polMgr *policyManager
+}
+
+func (w *c09mWorld) use(k int) {
+	st := w.stacks[k]
+	w.ipv, w.rs, w.epMgr, w.polMgr = st.ipv, st.rs, st.epMgr, st.polMgr
 }
 
 func c09mPool(ipv int) []netip.Addr {
@@ -149,19 +166,44 @@ func c09mPool(ipv int) []netip.Addr {
 
 func c09mHost(a netip.Addr) string { return netip.PrefixFrom(a, a.BitLen()).String() }
 
-func c09mGenRule(t *rapid.T, ipv int, actions []string) c09mRule {
+func c09mGenRule(t *rapid.T, _ int, actions []string) c09mRule {
 	r := &proto.Rule{Action: c09mFrom(t, "rule-action", actions)}
-	pool := c09mPool(ipv)
+	// Address rules name an address of one IP version (they then apply to that version only).
+	pool := c09mPool(c09mFrom(t, "rule-addr-version", []int{4, 6}))
 	out := c09mRule{R: r}
-	switch c09mIdx(t, "rule-kind", 8) {
+	switch c09mIdx(t, "rule-kind", 10) {
+	case 8, 9:
+		// A port list that needs more than one multiport match (>15 ports): rendered with
+		// match blocks.  One long list per side at most (two positive blocks).
+		mk := func(base int32) []*proto.PortRange {
+			var prs []*proto.PortRange
+			for i := int32(0); i < 17; i++ {
+				prs = append(prs, &proto.PortRange{First: base + 2*i, Last: base + 2*i})
+			}
+			return prs
+		}
+		r.Protocol = &proto.Protocol{NumberOrName: &proto.Protocol_Name{Name: "tcp"}}
+		r.DstPorts = append(mk(1000), &proto.PortRange{First: 443, Last: 443})
+		if c09mChance(t, "rule-long-srcports", 30) {
+			r.SrcPorts = append(mk(39990), &proto.PortRange{First: 40000, Last: 40000})
+		}
+		out.Fix = func(p *refpol.Packet) { p.Proto, p.DstPort, p.SrcPort = 6, 443, 40000 }
 	case 0, 1, 2:
 		a := c09mFrom(t, "rule-addr", pool)
 		r.DstNet = []string{c09mHost(a)}
-		out.Fix = func(p *refpol.Packet) { p.Dst = a }
+		out.Fix = func(p *refpol.Packet) {
+			if a.Is6() == (p.IPVersion == 6) {
+				p.Dst = a
+			}
+		}
 	case 3, 4:
 		a := c09mFrom(t, "rule-addr", pool)
 		r.SrcNet = []string{c09mHost(a)}
-		out.Fix = func(p *refpol.Packet) { p.Src = a }
+		out.Fix = func(p *refpol.Packet) {
+			if a.Is6() == (p.IPVersion == 6) {
+				p.Src = a
+			}
+		}
 	case 5, 6:
 		po := c09mFrom(t, "rule-port", []uint16{80, 443})
 		r.Protocol = &proto.Protocol{NumberOrName: &proto.Protocol_Name{Name: "tcp"}}
@@ -201,7 +243,7 @@ func c09mPolKey(id *proto.PolicyID) string {
 
 func c09mNewWorld(t *rapid.T) *c09mWorld {
 	w := &c09mWorld{active: map[string]bool{}}
-	w.ipv = rapid.SampledFrom([]int{4, 6}).Draw(t, "ipVersion")
+	w.ipv = 4
 	w.nft = rapid.Bool().Draw(t, "nft")
 	w.marks = c09mFrom(t, "markLayout", [][5]uint32{{0x8, 0x10, 0x80, 0x20, 0x40}, {0x10000, 0x20000, 0x40000, 0x80000, 0x100000}})
 	w.deny = c09mFrom(t, "denyAction", []string{"DROP", "REJECT"})
@@ -274,65 +316,90 @@ func (w *c09mWorld) start() {
 		AllowVXLANPacketsFromWorkloads: true,
 		AllowIPIPPacketsFromWorkloads:  true,
 	}
-	renderer := rules.NewRenderer(cfg, w.nft)
-	var filter generictables.Table
-	var filterMaps nftables.MapsDataplane
-	if w.nft {
-		rs, tbl := nfsim.NewNFT(w.ipv, "filter")
-		w.rs, filter, filterMaps = rs, tbl, tbl
-	} else {
-		rs, tbl := nfsim.NewIptables(w.ipv)
-		w.rs, filter = rs, tbl
+	for _, v := range []int{4, 6} {
+		w.ipv = v
+		renderer := rules.NewRenderer(cfg, w.nft)
+		var filter generictables.Table
+		var filterMaps nftables.MapsDataplane
+		if w.nft {
+			rs, tbl := nfsim.NewNFT(w.ipv, "filter")
+			w.rs, filter, filterMaps = rs, tbl, tbl
+		} else {
+			rs, tbl := nfsim.NewIptables(w.ipv)
+			w.rs, filter = rs, tbl
+		}
+		raw, mangle := generictables.NewNoopTable(), generictables.NewNoopTable()
+		rpf := "1"
+		if w.ipv == 6 {
+			rpf = ""
+		}
+		w.epMgr = newEndpointManagerWithShims(
+			&endpointManagerConfig{wlInterfacePrefixes: []string{"cali"}, nft: w.nft},
+			raw, mangle, filter,
+			renderer,
+			c09mRoutes{},
+			uint8(w.ipv),
+			rules.NewEndpointMarkMapper(cfg.MarkEndpoint, cfg.MarkNonCaliEndpoint),
+			func(ipVersion uint8, id any, status string, extraInfo any) {},
+			func(path, value string) error { return nil },
+			func(name string) (os.FileInfo, error) { return nil, nil },
+			rpf,
+			filterMaps,
+			nil,
+			c09mHEPListener{},
+			common.NewCallbacks(),
+			&linkaddrs.DummyLinkAddrsManager{},
+			nil,
+			nil,
+		)
+		w.polMgr = newPolicyManager(raw, mangle, filter, renderer, uint8(w.ipv), w.nft)
+		w.stacks = append(w.stacks, c09mStack{ipv: v, rs: w.rs, epMgr: w.epMgr, polMgr: w.polMgr})
 	}
-	raw, mangle := generictables.NewNoopTable(), generictables.NewNoopTable()
-	rpf := "1"
-	if w.ipv == 6 {
-		rpf = ""
-	}
-	w.epMgr = newEndpointManagerWithShims(
-		&endpointManagerConfig{wlInterfacePrefixes: []string{"cali"}, nft: w.nft},
-		raw, mangle, filter,
-		renderer,
-		c09mRoutes{},
-		uint8(w.ipv),
-		rules.NewEndpointMarkMapper(cfg.MarkEndpoint, cfg.MarkNonCaliEndpoint),
-		func(ipVersion uint8, id any, status string, extraInfo any) {},
-		func(path, value string) error { return nil },
-		func(name string) (os.FileInfo, error) { return nil, nil },
-		rpf,
-		filterMaps,
-		nil,
-		c09mHEPListener{},
-		common.NewCallbacks(),
-		&linkaddrs.DummyLinkAddrsManager{},
-		nil,
-		nil,
-	)
-	w.polMgr = newPolicyManager(raw, mangle, filter, renderer, uint8(w.ipv), w.nft)
+	w.use(0)
 }
 
+// send hands the SAME message object to every manager, IPv4 managers first (driver order).
 func (w *c09mWorld) send(msg any) {
-	w.polMgr.OnUpdate(msg)
-	w.epMgr.OnUpdate(msg)
+	for _, st := range w.stacks {
+		st.polMgr.OnUpdate(msg)
+		st.epMgr.OnUpdate(msg)
+	}
 }
 
 func (w *c09mWorld) apply() error {
-	if err := w.epMgr.ResolveUpdateBatch(); err != nil {
-		return err
+	for _, st := range w.stacks {
+		if err := st.epMgr.ResolveUpdateBatch(); err != nil {
+			return err
+		}
 	}
-	if err := w.polMgr.CompleteDeferredWork(); err != nil {
-		return err
+	for _, st := range w.stacks {
+		if err := st.polMgr.CompleteDeferredWork(); err != nil {
+			return err
+		}
+		if err := st.epMgr.CompleteDeferredWork(); err != nil {
+			return err
+		}
 	}
-	return w.epMgr.CompleteDeferredWork()
+	return nil
+}
+
+// c09mWire: the rules as they go on the wire: a deep copy, so that nothing the dataplane does
+// to a received message can reach the harness's model (the reference keeps the originals).
+func c09mWire(rs []c09mRule) []*proto.Rule {
+	var out []*proto.Rule
+	for _, r := range rs {
+		out = append(out, googleproto.Clone(r.R).(*proto.Rule))
+	}
+	return out
 }
 
 func (w *c09mWorld) sendPolicy(p *c09mPolicy) {
 	w.send(&proto.ActivePolicyUpdate{Id: p.ID, Policy: &proto.Policy{Tier: w.tierNames[p.Tier], Namespace: p.ID.Namespace,
-		OriginalSelector: p.Selector, InboundRules: c09mProtoRules(p.In), OutboundRules: c09mProtoRules(p.Out)}})
+		OriginalSelector: p.Selector, InboundRules: c09mWire(p.In), OutboundRules: c09mWire(p.Out)}})
 }
 
 func (w *c09mWorld) sendProfile(p *c09mProfile) {
-	w.send(&proto.ActiveProfileUpdate{Id: &proto.ProfileID{Name: p.Name}, Profile: &proto.Profile{InboundRules: c09mProtoRules(p.In), OutboundRules: c09mProtoRules(p.Out)}})
+	w.send(&proto.ActiveProfileUpdate{Id: &proto.ProfileID{Name: p.Name}, Profile: &proto.Profile{InboundRules: c09mWire(p.In), OutboundRules: c09mWire(p.Out)}})
 }
 
 // wanted: keys of the policies / profiles referenced by some present endpoint.
@@ -424,11 +491,8 @@ func (w *c09mWorld) sendEndpoint(i int) {
 		}
 	}
 	wep := &proto.WorkloadEndpoint{State: "active", Mac: fmt.Sprintf("02:00:00:00:00:%02x", i+1), Name: w.ifaces[i], ProfileIds: profs, Tiers: tiers}
-	if w.ipv == 4 {
-		wep.Ipv4Nets = []string{fmt.Sprintf("10.65.0.%d/32", i+2)}
-	} else {
-		wep.Ipv6Nets = []string{fmt.Sprintf("fd00:b::%d/128", i+2)}
-	}
+	wep.Ipv4Nets = []string{fmt.Sprintf("10.65.0.%d/32", i+2)}
+	wep.Ipv6Nets = []string{fmt.Sprintf("fd00:b::%d/128", i+2)}
 	w.send(&proto.WorkloadEndpointUpdate{Id: w.ids[i], Endpoint: wep})
 }
 
@@ -544,7 +608,6 @@ func TestVerifC09ManagerHistories(t *testing.T) {
 		if w.deny == "REJECT" {
 			wantDeny = nfsim.VerdictReject
 		}
-		pool := c09mPool(w.ipv)
 		hadGroup := make([]bool, len(w.eps))   // endpoint held a group chain at some point
 		lostGroups := make([]bool, len(w.eps)) // ... and afterwards had no group chain
 		var ops []string
@@ -638,6 +701,39 @@ func TestVerifC09ManagerHistories(t *testing.T) {
 				}
 			case k < 13:
 				op = "refresh"
+			case k < 16:
+				// A policy's kind flips between staged and enforced under the same name (a staged
+				// policy is promoted, or an enforced one is replaced by its staged twin): for the
+				// dataplane the old policy id disappears and a new id takes its place in every
+				// endpoint's list, all in one batch.
+				ti := c09mIdx(t, "op-policy-tier", len(w.pols))
+				p := w.pols[ti][c09mIdx(t, "op-policy", len(w.pols[ti]))]
+				oldID, oldKey := p.ID, c09mPolKey(p.ID)
+				p.Staged = !p.Staged
+				nid := &proto.PolicyID{Name: oldID.Name, Namespace: oldID.Namespace}
+				switch {
+				case oldID.Namespace != "" && p.Staged:
+					nid.Kind = v3.KindStagedNetworkPolicy
+				case oldID.Namespace != "":
+					nid.Kind = v3.KindNetworkPolicy
+				case p.Staged:
+					nid.Kind = v3.KindStagedGlobalNetworkPolicy
+				default:
+					nid.Kind = v3.KindGlobalNetworkPolicy
+				}
+				p.ID = nid
+				op = "policy-kind-flip-to-" + map[bool]string{true: "staged", false: "enforced"}[p.Staged]
+				if w.active[oldKey] {
+					op += "-active"
+					w.activate() // announces the new id
+					for j, o := range w.eps {
+						if o.Present && (o.In[p.Tier][c09mIndexOf(w.pols[p.Tier], p)] || o.Out[p.Tier][c09mIndexOf(w.pols[p.Tier], p)]) {
+							w.sendEndpoint(j)
+						}
+					}
+					w.send(&proto.ActivePolicyRemove{Id: oldID})
+					delete(w.active, oldKey)
+				}
 			default:
 				ti := c09mIdx(t, "op-policy-tier", len(w.pols))
 				p := w.pols[ti][c09mIdx(t, "op-policy", len(w.pols[ti]))]
@@ -648,7 +744,7 @@ func TestVerifC09ManagerHistories(t *testing.T) {
 					op = "policy-update-active"
 				}
 			}
-			if !strings.HasPrefix(op, "policy-update") {
+			if !strings.HasPrefix(op, "policy-") {
 				w.activate()
 				w.sendEndpoint(i)
 				w.deactivate()
@@ -691,95 +787,99 @@ func TestVerifC09ManagerHistories(t *testing.T) {
 				}
 			}
 
-			if err := w.rs.Err(); err != nil {
-				if _, gap := err.(*nfsim.GapError); gap {
-					t.Fatalf("%v", err)
+			for sk := range w.stacks {
+				w.use(sk)
+				pool := c09mPool(w.ipv)
+				if err := w.rs.Err(); err != nil {
+					if _, gap := err.(*nfsim.GapError); gap {
+						t.Fatalf("%v", err)
+					}
+					t.Fatalf("C09 violated: programmed filter table cannot be loaded after batch %d: %v\nhistory: %v\n%s", step, err, history, w.describe())
 				}
-				t.Fatalf("C09 violated: programmed filter table cannot be loaded after batch %d: %v\nhistory: %v\n%s", step, err, history, w.describe())
-			}
 
-			// ---- oracle: every existing endpoint, both directions ----
-			for j, o := range w.eps {
-				toName := w.chain(rules.EndpointChainName(rules.WorkloadToEndpointPfx, w.ifaces[j], c09mMaxLen(w.nft)))
-				fromName := w.chain(rules.EndpointChainName(rules.WorkloadFromEndpointPfx, w.ifaces[j], c09mMaxLen(w.nft)))
-				if !o.Present {
-					continue
-				}
-				tiers, profs := w.ref(o)
-				for _, dir := range []refpol.Dir{refpol.Inbound, refpol.Outbound} {
-					entry := toName
-					if dir == refpol.Outbound {
-						entry = fromName
+				// ---- oracle: every existing endpoint, both directions ----
+				for j, o := range w.eps {
+					toName := w.chain(rules.EndpointChainName(rules.WorkloadToEndpointPfx, w.ifaces[j], c09mMaxLen(w.nft)))
+					fromName := w.chain(rules.EndpointChainName(rules.WorkloadFromEndpointPfx, w.ifaces[j], c09mMaxLen(w.nft)))
+					if !o.Present {
+						continue
 					}
-					if !w.rs.HasChain(entry) {
-						t.Fatalf("C09 violated: after batch %d (%s) endpoint %s exists but its chain %s is not programmed\nhistory: %v\n%s", step, op, w.ifaces[j], entry, history, w.describe())
-					}
-					var fixes []func(*refpol.Packet)
-					for ti := range w.pols {
-						for pi, p := range w.pols[ti] {
-							rs, on := p.In, o.In[ti][pi]
-							if dir == refpol.Outbound {
-								rs, on = p.Out, o.Out[ti][pi]
-							}
-							if !on {
-								continue
-							}
-							for _, r := range rs {
-								fixes = append(fixes, r.Fix)
-							}
-						}
-					}
-					for pi, p := range w.profiles {
-						if o.Profiles[pi] {
-							rs := p.In
-							if dir == refpol.Outbound {
-								rs = p.Out
-							}
-							for _, r := range rs {
-								fixes = append(fixes, r.Fix)
-							}
-						}
-					}
-					fixes = append(fixes, func(*refpol.Packet) {}, func(*refpol.Packet) {})
-					for _, fix := range fixes {
-						p := refpol.Packet{IPVersion: w.ipv, Proto: c09mFrom(t, "pkt-proto", []uint8{6, 6, 17}), Src: c09mFrom(t, "pkt-src", pool), Dst: c09mFrom(t, "pkt-dst", pool),
-							SrcPort: 40000, DstPort: c09mFrom(t, "pkt-dport", []uint16{80, 443, 8080})}
-						fix(&p)
-						mark0 := uint32(c09mIdx(t, "pkt-mark", 1<<32)) &^ w.marks[2]
-						in, out := "eth0", w.ifaces[j]
+					tiers, profs := w.ref(o)
+					for _, dir := range []refpol.Dir{refpol.Inbound, refpol.Outbound} {
+						entry := toName
 						if dir == refpol.Outbound {
-							in, out = w.ifaces[j], "eth0"
+							entry = fromName
 						}
-						res, err := w.rs.Run(entry, &nfsim.Packet{IPVersion: w.ipv, Proto: p.Proto, Src: p.Src, Dst: p.Dst, SrcPort: p.SrcPort, DstPort: p.DstPort,
-							InIf: in, OutIf: out, Mark: mark0, CTState: "NEW", LimitOK: true})
-						ctx := func() string {
-							return fmt.Sprintf("\n  after batch %d (%s %s); endpoint %s %s chain %s; %s, IPv%d\n  packet: %s mark-in=%#x\nhistory: %v\n%s\nprogrammed filter table:\n%s",
-								step, op, w.ifaces[i], w.ifaces[j], dir, entry, map[bool]string{false: "iptables", true: "nftables"}[w.nft], w.ipv, p, mark0, history, w.describe(), w.rs.Dump())
+						if !w.rs.HasChain(entry) {
+							t.Fatalf("C09 violated: after batch %d (%s) endpoint %s exists but its chain %s is not programmed\nhistory: %v\n%s", step, op, w.ifaces[j], entry, history, w.describe())
 						}
-						if err != nil {
-							if _, gap := err.(*nfsim.GapError); gap {
-								t.Fatalf("%v", err)
-							}
-							t.Fatalf("C09 violated: the programmed chains of an existing endpoint cannot be executed (e.g. a jump to a chain that is not programmed): %v%s", err, ctx())
-						}
-						wh := refpol.VerdictWhere(tiers, profs, dir, &p, refpol.MapSets{}, refpol.Options{})
-						accepted := res.Mark&w.marks[0] != 0
-						got := fmt.Sprintf("programmed chains: verdict=%s accept-bit=%v final=%v chains=%v", res.Verdict, accepted, res.Final, res.Chains)
-						want := fmt.Sprintf("reference: %s (tier=%d policy=%d rule=%d profile=%d byTierDefault=%v)", wh.Decision, wh.Tier, wh.Policy, wh.Rule, wh.Profile, wh.ByTierDefault)
-						switch wh.Decision {
-						case refpol.Allow:
-							if res.Verdict != nfsim.VerdictReturn || !accepted {
-								t.Fatalf("C09 violated: reference verdict is ALLOW but the programmed endpoint chain did not return with the accept mark\n  %s\n  %s%s", want, got, ctx())
-							}
-						case refpol.Deny:
-							if res.Verdict != wantDeny {
-								t.Fatalf("C09 violated: reference verdict is DENY but the programmed endpoint chain did not %s the packet\n  %s\n  %s%s", wantDeny, want, got, ctx())
+						var fixes []func(*refpol.Packet)
+						for ti := range w.pols {
+							for pi, p := range w.pols[ti] {
+								rs, on := p.In, o.In[ti][pi]
+								if dir == refpol.Outbound {
+									rs, on = p.Out, o.Out[ti][pi]
+								}
+								if !on {
+									continue
+								}
+								for _, r := range rs {
+									fixes = append(fixes, r.Fix)
+								}
 							}
 						}
-						if wh.Tier >= 0 {
-							classes["outcome:decided-in-tier"] = true
-						} else {
-							classes["outcome:decided-after-tiers"] = true
+						for pi, p := range w.profiles {
+							if o.Profiles[pi] {
+								rs := p.In
+								if dir == refpol.Outbound {
+									rs = p.Out
+								}
+								for _, r := range rs {
+									fixes = append(fixes, r.Fix)
+								}
+							}
+						}
+						fixes = append(fixes, func(*refpol.Packet) {}, func(*refpol.Packet) {})
+						for _, fix := range fixes {
+							p := refpol.Packet{IPVersion: w.ipv, Proto: c09mFrom(t, "pkt-proto", []uint8{6, 6, 17}), Src: c09mFrom(t, "pkt-src", pool), Dst: c09mFrom(t, "pkt-dst", pool),
+								SrcPort: 40000, DstPort: c09mFrom(t, "pkt-dport", []uint16{80, 443, 8080})}
+							fix(&p)
+							mark0 := uint32(c09mIdx(t, "pkt-mark", 1<<32)) &^ w.marks[2]
+							in, out := "eth0", w.ifaces[j]
+							if dir == refpol.Outbound {
+								in, out = w.ifaces[j], "eth0"
+							}
+							res, err := w.rs.Run(entry, &nfsim.Packet{IPVersion: w.ipv, Proto: p.Proto, Src: p.Src, Dst: p.Dst, SrcPort: p.SrcPort, DstPort: p.DstPort,
+								InIf: in, OutIf: out, Mark: mark0, CTState: "NEW", LimitOK: true})
+							ctx := func() string {
+								return fmt.Sprintf("\n  after batch %d (%s %s); endpoint %s %s chain %s; %s, IPv%d\n  packet: %s mark-in=%#x\nhistory: %v\n%s\nprogrammed filter table:\n%s",
+									step, op, w.ifaces[i], w.ifaces[j], dir, entry, map[bool]string{false: "iptables", true: "nftables"}[w.nft], w.ipv, p, mark0, history, w.describe(), w.rs.Dump())
+							}
+							if err != nil {
+								if _, gap := err.(*nfsim.GapError); gap {
+									t.Fatalf("%v", err)
+								}
+								t.Fatalf("C09 violated: the programmed chains of an existing endpoint cannot be executed (e.g. a jump to a chain that is not programmed): %v%s", err, ctx())
+							}
+							wh := refpol.VerdictWhere(tiers, profs, dir, &p, refpol.MapSets{}, refpol.Options{})
+							accepted := res.Mark&w.marks[0] != 0
+							got := fmt.Sprintf("programmed chains: verdict=%s accept-bit=%v final=%v chains=%v", res.Verdict, accepted, res.Final, res.Chains)
+							want := fmt.Sprintf("reference: %s (tier=%d policy=%d rule=%d profile=%d byTierDefault=%v)", wh.Decision, wh.Tier, wh.Policy, wh.Rule, wh.Profile, wh.ByTierDefault)
+							switch wh.Decision {
+							case refpol.Allow:
+								if res.Verdict != nfsim.VerdictReturn || !accepted {
+									t.Fatalf("C09 violated: reference verdict is ALLOW but the programmed endpoint chain did not return with the accept mark\n  %s\n  %s%s", want, got, ctx())
+								}
+							case refpol.Deny:
+								if res.Verdict != wantDeny {
+									t.Fatalf("C09 violated: reference verdict is DENY but the programmed endpoint chain did not %s the packet\n  %s\n  %s%s", wantDeny, want, got, ctx())
+								}
+							}
+							if wh.Tier >= 0 {
+								classes["outcome:decided-in-tier"] = true
+							} else {
+								classes["outcome:decided-after-tiers"] = true
+							}
 						}
 					}
 				}
@@ -803,4 +903,13 @@ func c09mMaxLen(nft bool) int {
 		return nftables.MaxChainNameLength
 	}
 	return iptables.MaxChainNameLength
+}
+
+func c09mIndexOf(ps []*c09mPolicy, p *c09mPolicy) int {
+	for i, x := range ps {
+		if x == p {
+			return i
+		}
+	}
+	return -1
 }
